@@ -284,6 +284,39 @@ class is_flag_active_visitor<Flag, flag_and>""")]),
             typename ::boost::mpl::end<processable_events_internal_table>::type> >::type is_event_processable;""", """        typedef typename ::boost::mpl::has_key<processable_events_internal_table,Event>::type is_event_processable;""")]),
  dict(name='revert-d17-back-exit-pt-base-not-assigned', prop='C15', rule='C15.fields', edits=[(B, """            ExitPoint::operator=(rhs);
             return *this;""", """            return *this;""")]),
+ dict(name='revert-d23-mp11-explicit-entry-list-order', prop='C10', rule='C10.region-count', edits=[(MP, """        state_entry_visitor<Event> visitor{self(), event};
+        visit<visit_mode::active_non_recursive>(visitor);
+
+        postprocess_entry();""", """        state_entry_visitor<Event> visitor{self(), event};
+        if constexpr (all_regions_defined)
+        {
+            mp11::mp_for_each<state_identities>(
+                [this, &visitor](auto state_identity)
+                {
+                    using State = typename decltype(state_identity)::type;
+                    auto& state = this->get_state<State>();
+                    visitor(state);
+                });
+        }
+        else
+        {
+            visit<visit_mode::active_non_recursive>(visitor);
+        }
+
+        postprocess_entry();""")]),
+ dict(name='revert-d24-back-own-entry-gets-wrapper', prop='C09', rule='C09.entry', edits=[(B, """             (static_cast<Derived*>(self))->on_entry(evt.m_event,fsm);
+             int state_id = get_state_id<stt,typename EventType::active_state::wrapped_entry>::value;""", """             (static_cast<Derived*>(self))->on_entry(evt,fsm);
+             int state_id = get_state_id<stt,typename EventType::active_state::wrapped_entry>::value;""")]),
+ dict(name='refactor-gate-local-nonconst', prop='C11', refactor=True, edits=[(B, """        if (is_event_handling_blocked_helper<Event>
+                ( ::boost::mpl::bool_<has_fsm_blocking_states<library_sm>::type::value>() ) )
+        {
+            return HANDLED_TRUE;
+        }""", """        bool blocked = is_event_handling_blocked_helper<Event>
+                ( ::boost::mpl::bool_<has_fsm_blocking_states<library_sm>::type::value>() );
+        if (blocked)
+        {
+            return HANDLED_TRUE;
+        }""")]),
  dict(name='revert-d20-puml-terminate-suffix', prop='C14', rule='C14.puml', edits=[('include/boost/msm/front/puml/puml.hpp', """cleanup_token(stt().substr(endl_before_pos + 1, arrow_pos - endl_before_pos - 1)) == state_name())""", """cleanup_token(stt().substr(state_pos, arrow_pos - state_pos)) == state_name())""")]),
  dict(name='flagfold-back11-early-break', prop='C17', rule='C17.pure', edits=[(B11, """            res = typename BinaryOp::type() (res,(*flags_entries[ m_states[i] ])(*this));""", """            res = typename BinaryOp::type() (res,(*flags_entries[ m_states[i] ])(*this));
             if (res) break;""")]),
